@@ -42,10 +42,10 @@ TRUST = ("trusted: Linux pipe/fork/waitpid semantics as modelled in sim/rt/vsim.
 
 CHECKS = {
  "C29": ("envsim", "exploration", "6.11",
-         "the same project and options run under 3-4 environment seeds (seeded arena allocator changing heap address order, shuffled readdir and DT_UNKNOWN, simulated clock, environment variables): byte-identical text/XML output and exit status, dump files identical up to id renaming, equal finding multisets for -jN",
+         "the same project and options run under 3-4 environment seeds (seeded arena allocator changing heap address order, seeded readdir permutation and DT_UNKNOWN, simulated clock epoch and rate, environment variables; path names differing in case only or around separators): byte-identical text/XML output and exit status, dump files identical up to id renaming, equal finding multisets for -jN",
          "deterministic simulation: seeded environment perturbation (heap layout, directory order, clock, environment), output-equality oracle"),
  "C34": ("addonsim", "exploration", "6.12",
-         "stub addon executables playing seeded scripts (well-formed findings, summaries, metrics, malformed JSON, wrong types, failing exit codes, signals, partial lines) per unit and in the whole-program phase, under all executors, with and without build dir, AddressSanitizer build; reference model of the relaying rules",
+         "stub addon executables playing seeded scripts (well-formed findings, summaries, metrics, malformed JSON, wrong types, failing exit codes, signals, partial lines) per unit and in the whole-program phase, under all executors, with and without build dir, optionally a second phase on the same build dir after editing units (new scripts), AddressSanitizer build; reference model of the relaying rules",
          "deterministic simulation with fault injection: scripted faulty second party (addon process), reference model + crash/sanitizer oracle"),
  "C16": ("execsim+tsan", "exploration", "6.2",
          "ThreadSanitizer build of the real CLI under the seeded thread scheduler (handoff invisible to TSan); option sets touching every shared object of the thread executor; any race report is a violation",
@@ -57,22 +57,22 @@ CHECKS = {
          "generated suppression sets; unmatchedSuppression reports compared across executors/schedules and against a reference model of the documented matching rules fed with the raw findings",
          "deterministic simulation: seeded schedules + executable reference model of unmatched-suppression reporting"),
  "C25": ("invariant", "exploration", "6.10",
-         "exit-status invariant evaluated on every simulated run: all executors and schedules, cold and cached build dirs, whole-program-only and unmatched-only runs, injected worker deaths, exitcode-suppressions, invalid command lines",
+         "exit-status invariant evaluated on every simulated run: all executors and schedules, cold and cached build dirs, whole-program-only and unmatched-only runs, injected worker deaths, exitcode-suppressions (random, or derived from a probing run so that they cover all / all but one reported finding), invalid command lines",
          "deterministic simulation: invariant over simulated runs (schedules, cache states, injected worker deaths)"),
  "C15": ("execsim", "exploration", "6.1",
-         "generated projects analysed by -j1 and by 2-5 runs under the seeded thread scheduler / process transport (schedules, select subsets/timeouts, waitpid lag, load-average stalls, payload chunking); findings, unmatchedSuppression reports and exit status compared",
+         "generated projects analysed by -j1 and by 2-5 runs under the seeded thread scheduler / process transport (schedules, select subsets/timeouts, waitpid lag, load-average stalls, payload chunking), input as file list or generated compile database, with and without --safety and suppressed critical errors; findings, unmatchedSuppression reports and exit status compared",
          "deterministic simulation: seeded thread schedules and worker-process transport, differential oracle vs -j1"),
  "C21": ("execsim+crash", "fault_enumeration", "6.7",
-         "worker-death verdicts (signals, _exit codes) injected at the chunk boundaries of every worker's message stream, single and multiple victims; termination, exit status, internal error per victim and an exact prediction of the reported findings from the transport trace",
+         "worker-death verdicts (signals, _exit codes) injected at the chunk boundaries of every worker's message stream, single and multiple victims, file-list and compile-database input, with and without build dir; termination, exit status, internal error per victim and an exact prediction of the reported findings from the transport trace",
          "deterministic simulation with fault injection: enumeration of worker death points in the process executor's transport, trace-based prediction oracle"),
  "C18": ("buildsim", "exploration", "6.4",
-         "seeded histories of edits and runs (all three executors under seeded schedules) against one build dir; every run compared with a fresh no-build-dir run",
+         "seeded histories of edits (token, line/column shift, comment-only incl. inline suppressions that move no token, header, computed include, add/remove/move/swap) and runs (all three executors under seeded schedules, file list or compile database) against one build dir; every run compared with a fresh no-build-dir run",
          "deterministic simulation: seeded edit/run histories against one build dir, differential oracle vs fresh run"),
  "C19": ("buildsim", "exploration", "6.5",
          "seeded histories of option sets over option-sensitive projects sharing one build dir; every run compared with a fresh run with the same options",
          "deterministic simulation: seeded option-change histories against one build dir, differential oracle vs fresh run"),
  "C20": ("buildsim+crash", "fault_enumeration", "6.6",
-         "kill points enumerated over the numbered build-dir ops of a victim run (byte-prefix tears, seeded write chunking, all executors), recovery run compared with a fresh run",
+         "kill points enumerated over the numbered build-dir ops of a victim run (SIGKILL with byte-prefix tears and seeded write chunking, or SIGTERM/SIGINT/SIGHUP delivered to the process at the op; all executors), recovery run compared with a fresh run",
          "deterministic simulation with fault injection: enumeration of kill points (process killed at op k with byte prefix) then recovery run vs fresh run"),
  "C22": ("buildsim", "exploration", "6.8",
          "generated cross-unit programs analysed in memory, from a build dir twice with one job, and with thread/process executors under seeded schedules; whole-program findings compared",
